@@ -133,6 +133,9 @@ def replay(d):
     import mulgrids as M
     fam, clause, si = d['family'], d['clause'], d['step']
     geo = CC.build(M, fam, R.ConcEnv(d['values']))
+    if si < 0:      # the family as built by the real constructors already violates the clause
+        after = clause_defects(geo, clause)
+        return bool(after), 'initial state (built by the real rectangular()/add_* calls), clause %s: %r' % (clause, after[:3])
     before = None
     try:
         for i, st in enumerate(d['steps']):
